@@ -572,7 +572,7 @@ Fixpoint commit_loop (fuel : nat) (ci next : N) (s : S) : S * N :=
 Definition tick_leader (e : env) (s : S) : S :=
   let n := nd s in
   if role n =? LEADER then
-    let (s, nc) := commit_loop (Datatypes.S (length (log n))) (commit n) (commit n) s in
+    let (s, nc) := commit_loop (Datatypes.S (N.to_nat (last_idx (log n) - commit n))) (commit n) (commit n) s in
     if ok s then
       let s := if commit (nd s) =? nc then s
                else upd (fun n => set_commit_meta (n <| commit := nc |>)) s in
